@@ -78,6 +78,14 @@ impl Context {
         }
     }
 
+    /// Leaves every subprogram (and argument collecting) state:
+    /// only the state of the main module remains.
+    pub fn pop_to_global(&mut self) {
+        while self.states.len() > 1 {
+            self.do_pop();
+        }
+    }
+
     pub fn push_error_handler_context(&mut self) {
         self.drop_argument_states();
         self.do_push_existing(0, false);
